@@ -52,6 +52,8 @@ META = {
 def run(ctx):
     obs = ctx.obs
     obs.extra['meta'] = META
+    from ..model import set_cell_scale_varies
+    set_cell_scale_varies(True)            # some datasets are 100 m / 5 m models expressed in degrees
     from ..model.grids import set_wide_longitudes
     set_wide_longitudes(True)      # also datasets in the 0..360 convention / straddling 180 degrees
     contracts.attach_all(obs, only={'make_polygons_with_holes'})
